@@ -69,6 +69,11 @@ const OPS: &[(&str, u8)] = &[
     ("hs += [fn () {\nreturn x + 0\n}]", 0),
     ("print(hs[0]())", 0),
     ("[x, y] := [K, x + 0]", 0),
+    ("break", 0),
+    ("continue", 0),
+    ("print(true || y)", 0),
+    ("print(false && y == 0)", 0),
+    ("if false && x == 0 {\nprint(K)\n}", 0),
     ("{\nx := K\n{\nx = K\n}\nprint(x + 0)\n}\nprint(x + 0)", 0),
     ("{\nx := K\nfn aN() {\nx = K\n}\naN()\nprint(x + 0)\n}\nprint(x + 0)", 5),
     ("{\nx := K\n{\nx += K\n[x] = [x + 1]\n}\nprint(x + 0)\n}", 0),
